@@ -45,17 +45,23 @@ class UnitResult:
 def run_verus_unit(unit, scratch, tier, seed):
     ur = UnitResult(unit, "verus")
     t0 = time.time()
-    udir = os.path.join(ROOT, "units", unit)
+    base, _, variant = unit.partition("@")
+    udir = os.path.join(ROOT, "units", base)
+    variables = None
+    if variant:
+        variables = json.load(open(os.path.join(udir, "variants.json")))[variant]
     try:
-        g = vunit.assemble(udir, REPO)
-        gv = vunit.assemble(udir, REPO, vacuity=True)
+        g = vunit.assemble(udir, REPO, variables=variables)
+        gv = vunit.assemble(udir, REPO, vacuity=True, variables=variables)
+        g.unit = gv.unit = unit
     except ExtractError as e:
         ur.undecided.append(f"extraction: {e}")
         ur.wall = time.time() - t0
         return ur
     os.makedirs(scratch, exist_ok=True)
-    main_p = os.path.join(scratch, f"{unit}.rs")
-    vac_p = os.path.join(scratch, f"{unit}_reach.rs")
+    fname = unit.replace("@", "_")
+    main_p = os.path.join(scratch, f"{fname}.rs")
+    vac_p = os.path.join(scratch, f"{fname}_reach.rs")
     open(main_p, "w").write(g.text)
     open(vac_p, "w").write(gv.text)
     with cf.ThreadPoolExecutor(max_workers=2) as ex:
